@@ -535,3 +535,52 @@ Theorem C18_good_filter_has_good_limiters :
        wfl l /\ linv l (cur - init_time r) /\ (B - init_time r) + tau l + tau l < U64).
 Proof. exact fgood_limiters. Qed.
 Print Assumptions C18_good_filter_has_good_limiters.
+
+(* Configuration plumbing (Model/Config.v, transcribing ConfigBuilder, Config, Discv5::new / Discv5::start,
+   tied to the code by the `glue` correspondence run on real loopback sockets): the parameters the theorems
+   above take as given are the ones the application configured - the value set last through the builder,
+   or the default - at every component they are handed to. *)
+Require Discv5V.Generated.Params Discv5V.Model.Config Discv5V.Proofs.Config.
+Theorem C18_configured_filter_reaches_the_receive_path : forall ops v, Discv5V.Model.Config.start_node ops = Some v ->
+  Discv5V.Model.Config.VB (Discv5V.Model.Config.c_enable_packet_filter (Discv5V.Model.Config.nv_handler v)) = Discv5V.Model.Config.configured ops Discv5V.Model.Config.FEnablePacketFilter /\
+  Discv5V.Model.Config.VO (Discv5V.Model.Config.c_filter_max_nodes_per_ip (Discv5V.Model.Config.nv_handler v)) = Discv5V.Model.Config.configured ops Discv5V.Model.Config.FFilterMaxNodesPerIp /\
+  Discv5V.Model.Config.VO (Discv5V.Model.Config.c_filter_max_bans_per_ip (Discv5V.Model.Config.nv_handler v)) = Discv5V.Model.Config.configured ops Discv5V.Model.Config.FFilterMaxBansPerIp /\
+  Discv5V.Model.Config.VR (Discv5V.Model.Config.c_filter_rate_limiter (Discv5V.Model.Config.nv_handler v)) = Discv5V.Model.Config.configured ops Discv5V.Model.Config.FFilterRateLimiter.
+Proof. exact Discv5V.Proofs.Config.effective_filter. Qed.
+Print Assumptions C18_configured_filter_reaches_the_receive_path.
+Theorem C18_configured_permit_ban_list_is_installed : forall ops v, Discv5V.Model.Config.start_node ops = Some v ->
+  Discv5V.Model.Config.VP (Discv5V.Model.Config.nv_permit_ban v) = Discv5V.Model.Config.configured ops Discv5V.Model.Config.FPermitBanList /\
+  Discv5V.Model.Config.VP (Discv5V.Model.Config.c_permit_ban_list (Discv5V.Model.Config.nv_handler v)) = Discv5V.Model.Config.configured ops Discv5V.Model.Config.FPermitBanList.
+Proof. exact Discv5V.Proofs.Config.effective_permit_ban_list. Qed.
+Print Assumptions C18_configured_permit_ban_list_is_installed.
+Theorem C18_configuration_example : exists v, Discv5V.Model.Config.start_node Discv5V.Proofs.Config.example_ops = Some v.
+Proof. destruct Discv5V.Proofs.Config.example_starts as [v [H _]]. exists v. exact H. Qed.
+Print Assumptions C18_configuration_example.
+
+(* The receive task in front of the handler (RecvHandler::handle_inbound, Model/Limiter.v recv_inbound,
+   compared with the real task through the virtual handler on generated datagrams): *)
+Require Discv5V.Model.Limiter Discv5V.Proofs.Limiter.
+Module C18Recv.
+Import Discv5V.Model.Limiter.
+Theorem C18_exemption_is_per_socket_address : forall (f : pfilter) (p : pbl) (expected : list saddr) (src : saddr) (packet : option pkind) (now : N),
+  (forall e : saddr, In e expected -> sa_ip e <> sa_ip src \/ sa_port e <> sa_port src) ->
+  recv_inbound f p expected src packet now = recv_inbound f p nil src packet now.
+Proof. exact Discv5V.Proofs.Limiter.exemption_is_per_socket_address. Qed.
+Print Assumptions C18_exemption_is_per_socket_address.
+Theorem C18_awaited_source_bypasses_the_filter : forall (f : pfilter) (p : pbl) (expected : list saddr) (src : saddr) (packet : option pkind) (now : N),
+  In (normalise_src src) expected ->
+  recv_inbound f p expected src packet now =
+  (f, p, match packet with Some _ => Deliver | None => Unrecognized end, normalise_src src).
+Proof. exact Discv5V.Proofs.Limiter.exempted_source_bypasses_filter. Qed.
+Print Assumptions C18_awaited_source_bypasses_the_filter.
+Theorem C18_handshake_packets_pass_the_node_stage_like_messages : forall (f : pfilter) (p : pbl) (expected : list saddr) (src : saddr) (id now : N),
+  recv_inbound f p expected src (Some (PHandshake id)) now = recv_inbound f p expected src (Some (PMessage id)) now.
+Proof. exact Discv5V.Proofs.Limiter.handshake_packets_pass_node_stage. Qed.
+Print Assumptions C18_handshake_packets_pass_the_node_stage_like_messages.
+Theorem C18_unsolicited_datagram_of_a_banned_ip_is_dropped : forall (f : pfilter) (p : pbl) (expected : list saddr) (src : saddr) (packet : option pkind) (now : N),
+  (forall e : saddr, In e expected -> sa_ip e <> sa_ip src \/ sa_port e <> sa_port src) ->
+  mem (sa_ip src) (permit_ips p) = false -> has_key (sa_ip src) (ban_ips p) = true ->
+  recv_inbound f p expected src packet now = (f, p, DropIpStage, normalise_src src).
+Proof. exact Discv5V.Proofs.Limiter.unsolicited_banned_ip_dropped. Qed.
+Print Assumptions C18_unsolicited_datagram_of_a_banned_ip_is_dropped.
+End C18Recv.
